@@ -31,9 +31,20 @@ class Monitor:
         if not all(type(v) is int for v in (time, rate, accel, jerk)):
             ctx.count("skipped:non-integer input")
             return True
-        if time < 1 or abs(rate) > S.RMAX or not S.t3_in_domain(rate, accel, jerk, time):
+        if time < 1:
             ctx.count("skipped:outside domain")
             return True
+        if abs(rate) > S.RMAX or not S.t3_in_domain(rate, accel, jerk, time):
+            # a move that breaks the rate limit is exactly what the helper is there to expose ("a move the
+            # helper reports as within the limit exceeds it by at most one jerk increment"): the bracket is
+            # decided for those as well, as long as the numbers stay within a few times the limit and the
+            # acceleration register stays in range (beyond that the recurrence itself is not defined)
+            a_end = accel + time * jerk
+            if S.t3_peak(rate, accel, jerk, time) > 8 * S.RMAX or abs(rate) > 8 * S.RMAX \
+                    or not (-S.I32 <= accel < S.I32 and -S.I32 <= a_end < S.I32):
+                ctx.count("skipped:outside domain")
+                return True
+            ctx.tag("peak above the 2^31-1 limit (the move the helper must expose)")
         ctx.count("monitor:max_rate_t3 evaluated")
         r1 = abs(S.t3_rate(rate, accel, jerk, 1))
         r_t = abs(S.t3_rate(rate, accel, jerk, time))
@@ -120,11 +131,33 @@ def edge_of_window(ctx, rng, n):
     ctx.extra["edge_of_window_generator_tries"] = tries
 
 
+def over_limit(ctx, rng, n):
+    """In-domain moves pushed over the limit by raising the start rate: interior peak above 2^31-1 with
+    the ends inside it, ends above it, everything above it."""
+    done = tries = 0
+    while done < n and tries < 40 * n:
+        tries += 1
+        case = G.gen_t3_case(rng)
+        if case is None:
+            continue
+        _classes, time, rate, accel, jerk, _accum = case
+        peak_tick = max(S.t3_candidate_ticks(accel, jerk, time), key=lambda k: abs(S.t3_rate(rate, accel, jerk, k)))
+        sign = 1 if S.t3_rate(rate, accel, jerk, peak_tick) >= 0 else -1
+        gap = S.RMAX - S.t3_peak(rate, accel, jerk, time)
+        push = gap + rng.choice((1, 2, rng.randint(1, 1000), rng.randint(1, S.RMAX), rng.randint(1, 3 * S.RMAX)))
+        rate2 = rate + sign * push
+        ctx.case(["over the limit"], (time, rate2, accel, jerk))
+        one_case(ctx, time, rate2, accel, jerk)
+        done += 1
+
+
 def run(ctx):
     from .. import wtests
     wtests.run(ctx)
     install(ctx)
     rng = ctx.rng
+    over_limit(ctx, rng, ctx.budget(8_000, 80_000))
+    ctx.need("peak above the 2^31-1 limit (the move the helper must expose)", 3_000)
     edge_of_window(ctx, rng, ctx.budget(6_000, 60_000))
     ctx.need("vertex within a few 1/jerk of the window edge (large jerk)", 3_000)
     ctx.need("edge:T-1.5", 1_000)
